@@ -70,6 +70,7 @@ func cloneArgs(a [][]byte) [][]byte {
 
 // Config fixes a world's shape.
 type Config struct {
+	WithMeta     bool // add the metachain as one more shard (index NShards): metachain addresses then have a home
 	NShards      int
 	Gas          map[string]map[string]uint64
 	EnableChange bool
@@ -177,8 +178,15 @@ func New(cfg Config, addrs []*AddrInfo) (*World, error) {
 		}
 	}
 	w.Sched = CloneGas(cfg.Gas)
-	for s := 0; s < cfg.NShards; s++ {
-		sh := &Shard{ID: uint32(s), N: uint32(cfg.NShards), Accounts: map[string]*Account{}, Faults: nil, Oracle: &Oracle{Table: map[string]string{}}}
+	nsh := cfg.NShards
+	if cfg.WithMeta {
+		nsh++
+	}
+	for s := 0; s < nsh; s++ {
+		sh := &Shard{ID: uint32(s), Idx: s, N: uint32(cfg.NShards), Accounts: map[string]*Account{}, Faults: nil, Oracle: &Oracle{Table: map[string]string{}}}
+		if s == cfg.NShards {
+			sh.ID = vmcommon.MetachainShardId
+		}
 		if err := sh.BuildContainer(CloneGas(cfg.Gas), dns, cfg.EnableChange, cfg.Activation); err != nil {
 			return nil, err
 		}
@@ -240,6 +248,9 @@ func (w *World) NameOf(b []byte) string {
 func (w *World) HomeShard(b []byte) int {
 	s := ShardOf(b, uint32(w.Cfg.NShards))
 	if s == vmcommon.MetachainShardId {
+		if w.Cfg.WithMeta {
+			return w.Cfg.NShards
+		}
 		return -1
 	}
 	return int(s)
@@ -356,10 +367,10 @@ func Invoke(fn vmcommon.BuiltinFunction, snd, dst vmcommon.UserAccountHandler, i
 
 // Accounts decides, like the node's blockchain hook, which account objects a call receives.
 func (w *World) accounts(s *Shard, c *Call) (snd, dst *Account) {
-	if w.HomeShard(c.Caller) == int(s.ID) {
+	if w.HomeShard(c.Caller) == s.Idx {
 		snd = s.get(c.Caller)
 	}
-	if w.HomeShard(c.Rcpt) == int(s.ID) && !bytes.Equal(c.Rcpt, SysAddr) {
+	if w.HomeShard(c.Rcpt) == s.Idx && !bytes.Equal(c.Rcpt, SysAddr) {
 		if snd != nil && bytes.Equal(c.Caller, c.Rcpt) {
 			dst = snd
 		} else {
